@@ -192,12 +192,15 @@ def c11(chk):
                 "finite phase-space denotation. Non-trivial = circuit touching 2+ modes; distinct by (target, circuit, subset).")
     chk.assumptions = ["matrix entries compared at 1e-9; a CircuitError is an accepted refusal, any other exception is not"]
     # design level on a small register (all invariants), binding on the large one
-    chk.tlc("MC_Merge", constants={"RegSize": 3, "SubsetSize": 2, "Len0": 2, "TargetId": "gu", "EMIT": False}, invariants=["NetIsSymplectic", "NetMatchesState"])
-    chk.tlc("MC_Merge", constants={"RegSize": 3, "SubsetSize": 2, "Len0": 2, "TargetId": "passive", "EMIT": False},
+    chk.tlc("MC_Merge", constants={"RegSize": 3, "SubsetSize": 2, "Len0": 2, "TargetId": "gu", "SubsetFilter": "all", "EMIT": False},
+            invariants=["NetIsSymplectic", "NetMatchesState"])
+    chk.tlc("MC_Merge", constants={"RegSize": 3, "SubsetSize": 2, "Len0": 2, "TargetId": "passive", "SubsetFilter": "all", "EMIT": False},
             invariants=["TransferUnitaryIfLossless", "TransferMatchesSymp"])
-    plans = [("gu", 10, 2, 2), ("passive", 10, 2, 2), ("gu", 4, 3, 2), ("passive", 4, 3, 2)] if tier == "quick" else [("gu", 12, 2, 2), ("passive", 12, 2, 2), ("gu", 10, 3, 2), ("passive", 10, 3, 2), ("gu", 5, 2, 3)]
+    plans = [("gu", 10, 2, 2), ("passive", 10, 2, 2), ("gu", 10, 3, 2), ("passive", 10, 3, 2)] if tier == "quick" else [("gu", 12, 2, 2), ("passive", 12, 2, 2), ("gu", 10, 3, 2), ("passive", 10, 3, 2), ("gu", 5, 2, 3)]
     for (target, regsize, ssize, L) in plans:
-        r = chk.tlc("MC_Merge", constants={"RegSize": regsize, "SubsetSize": ssize, "Len0": L, "TargetId": target, "EMIT": True}, invariants=["EmitInv"], timeout=3000)
+        r = chk.tlc("MC_Merge", constants={"RegSize": regsize, "SubsetSize": ssize, "Len0": L, "TargetId": target,
+                                           "SubsetFilter": "few" if (tier == "quick" and ssize == 3) else "all", "EMIT": True},
+                    invariants=["EmitInv"], timeout=3000)
         items = r.json
         _CFG.update(target=target, regsize=regsize)
         res = common.pmap(_run_one, items)
@@ -248,5 +251,5 @@ def c11(chk):
                     chk.violation("ActsOutsideUsedModes", dict(f, at=label), det)
         mid = items[len(items) // 2]
         chk.sample({"target": target, "register": regsize, "program": short(mid["circ"]), "used": mid["used"]})
-    hybrid(chk, 1500 if tier == "quick" else 20000)
+    hybrid(chk, 800 if tier == "quick" else 20000)
     chk.exhaustive = True
